@@ -18,29 +18,34 @@
 (***************************************************************************)
 EXTENDS Extend, TLC
 
-CONSTANTS T, Rad2, Lvs, Seeded, Build, MaxCalls, Worlds, Problems, Region, RestoreRng
+CONSTANTS T, Rad2, Lvs, Seeded, Build, MaxCalls, WorldPairs, Problems, SetupChoices, Region, RestoreRng
 
-VARIABLES valid, probs, pd, road, acc, pc, now, rng, src, res, ncalls, nbuilt, hist
+VARIABLES worlds, vc, probs, pd, road, acc, pc, now, rng, src, res, ncalls, nbuilt, hist
 
-vars == <<valid, probs, pd, road, acc, pc, now, rng, src, res, ncalls, nbuilt, hist>>
-view == <<valid, probs, pd, road, acc, pc, now, rng, src, res, ncalls, nbuilt>>
+vars == <<worlds, vc, probs, pd, road, acc, pc, now, rng, src, res, ncalls, nbuilt, hist>>
+view == <<worlds, vc, probs, pd, road, acc, pc, now, rng, src, res, ncalls, nbuilt>>
+
+\* what the installed checker accepts (setup installs a problem definition AND a checker;
+\* set_problem_definition replaces the problem only)
+valid == worlds[IF vc = 0 THEN 1 ELSE vc]
 
 None == [kind |-> "none", path |-> <<>>, chain |-> <<>>]
 Ret(k) == [kind |-> k, path |-> <<>>, chain |-> <<>>]
 M(s, e) == [s |-> s, e |-> e]
 
 Init ==
-  /\ valid \in Worlds /\ probs \in Problems
+  /\ worlds \in WorldPairs /\ vc = 0 /\ probs \in Problems
   /\ pd = 0 /\ road = <<>> /\ acc = {} /\ pc = "idle" /\ now = 0
   /\ rng = IF Seeded THEN "seeded" ELSE "none"
   /\ src = "-" /\ res = None /\ ncalls = 0 /\ nbuilt = 0 /\ hist = <<>>
 
-Setup(i) ==
+Setup(i, k) ==
   /\ pc = "idle" /\ ncalls < MaxCalls
-  /\ pd' = i /\ road' = <<>> /\ acc' = {} /\ res' = None
+  /\ <<i, k>> \in SetupChoices
+  /\ pd' = i /\ vc' = k /\ road' = <<>> /\ acc' = {} /\ res' = None
   /\ ncalls' = ncalls + 1
-  /\ hist' = Append(hist, [c |-> "setup", i |-> i])
-  /\ UNCHANGED <<valid, probs, pc, now, rng, src, nbuilt>>
+  /\ hist' = Append(hist, [c |-> "setup", i |-> i, v |-> k])
+  /\ UNCHANGED <<worlds, probs, pc, now, rng, src, nbuilt>>
 
 \* set_problem_definition: the problem only; roadmap and checker stay
 SetPd(i) ==
@@ -48,7 +53,7 @@ SetPd(i) ==
   /\ pd' = i /\ res' = None
   /\ ncalls' = ncalls + 1
   /\ hist' = Append(hist, [c |-> "setpd", i |-> i])
-  /\ UNCHANGED <<valid, probs, road, acc, pc, now, rng, src, nbuilt>>
+  /\ UNCHANGED <<worlds, vc, probs, road, acc, pc, now, rng, src, nbuilt>>
 
 ConstructBegin ==
   /\ pc = "idle" /\ ncalls < MaxCalls
@@ -56,22 +61,22 @@ ConstructBegin ==
   /\ hist' = Append(hist, [c |-> "construct"])
   /\ IF pd = 0
        THEN /\ res' = Ret("uninit")
-            /\ UNCHANGED <<valid, probs, pd, road, acc, pc, now, rng, src, nbuilt>>
+            /\ UNCHANGED <<worlds, vc, probs, pd, road, acc, pc, now, rng, src, nbuilt>>
      ELSE IF road # <<>>
        THEN /\ res' = Ret("unit")                     \* identity on a built roadmap
-            /\ UNCHANGED <<valid, probs, pd, road, acc, pc, now, rng, src, nbuilt>>
+            /\ UNCHANGED <<worlds, vc, probs, pd, road, acc, pc, now, rng, src, nbuilt>>
      ELSE /\ res' = None /\ pc' = "build" /\ now' = 0
           /\ src' = IF rng = "seeded" THEN "seeded" ELSE "os"
           /\ rng' = IF rng = "seeded" THEN "taken" ELSE rng
           /\ nbuilt' = nbuilt + 1
-          /\ UNCHANGED <<valid, probs, pd, road, acc>>
+          /\ UNCHANGED <<worlds, vc, probs, pd, road, acc>>
 
 ConstructEnd ==
   /\ pc = "build" /\ now > Build
   /\ pc' = "idle" /\ res' = Ret("unit")
   /\ rng' = IF RestoreRng /\ src = "seeded" THEN "seeded" ELSE rng
   /\ hist' = hist
-  /\ UNCHANGED <<valid, probs, pd, road, acc, now, src, ncalls, nbuilt>>
+  /\ UNCHANGED <<worlds, vc, probs, pd, road, acc, now, src, ncalls, nbuilt>>
 
 \* the linking fold over existing milestones, in index order: [links, acc]
 RECURSIVE LinkFold(_, _, _, _)
@@ -96,7 +101,7 @@ SampleMilestone(q) ==
                /\ road' = Append([i \in 1 .. Len(road) |->
                                     IF i \in lf.links THEN M(road[i].s, road[i].e \cup {me}) ELSE road[i]],
                                  M(q, lf.links))
-  /\ UNCHANGED <<valid, probs, pd, pc, rng, src, res, ncalls, nbuilt>>
+  /\ UNCHANGED <<worlds, vc, probs, pd, pc, rng, src, res, ncalls, nbuilt>>
 
 \* start connections (with the queries they cost)
 RECURSIVE StartFold(_, _, _, _)
@@ -147,10 +152,10 @@ Solve ==
   /\ ncalls' = ncalls + 1
   /\ hist' = Append(hist, [c |-> "solve", t |-> 0])
   /\ \E o \in SolveOutcomes : res' = o.res /\ acc' = o.acc
-  /\ UNCHANGED <<valid, probs, pd, road, pc, now, rng, src, nbuilt>>
+  /\ UNCHANGED <<worlds, vc, probs, pd, road, pc, now, rng, src, nbuilt>>
 
 Next ==
-  \/ \E i \in 1 .. 2 : Setup(i) \/ SetPd(i)
+  \/ \E i \in 1 .. 2 : (\E k \in 1 .. 2 : Setup(i, k)) \/ SetPd(i)
   \/ ConstructBegin \/ ConstructEnd
   \/ \E q \in Region : SampleMilestone(q)
   \/ Solve
